@@ -867,6 +867,38 @@ def _cli(o):
 EXTRA.append(_cli)
 
 
+# ---------------------------------------------------------------------------
+# verify.py call level (C06): the whole bodies of the generator and its two consumers
+# ---------------------------------------------------------------------------
+
+def _faults(o):
+    ve = _src('gemato/verify.py')
+
+    def lines(fn):
+        f = find_func(ve, fn)
+        body = f.body
+        if body and isinstance(body[0], ast.Expr) and isinstance(body[0].value, ast.Constant):
+            body = body[1:]
+        return llist(lstr(x) for st in body for x in _u(st).split('\n'))
+    for fn in ('get_file_metadata', 'verify_path', 'update_entry_for_path'):
+        o.item(f'calls_{fn}', 'List (List Nat)', (lambda fn=fn: lines(fn)), '[]')
+
+    def load_unreg_handlers():
+        rl = _src('gemato/recursiveloader.py')
+        f = find_func(rl, 'load_unregistered_manifests', 'ManifestRecursiveLoader')
+        out = []
+        for n in ast.walk(f):
+            if isinstance(n, ast.Try):
+                for h in n.handlers:
+                    out.append((h.lineno, _u(h.type) + ': ' + ' '.join(_u(x) for x in h.body).replace('\n', ' ')))
+        out.sort()
+        return llist(lstr(t) for _l, t in out)
+    o.item('calls_unregistered_handlers', 'List (List Nat)', load_unreg_handlers, '[]')
+
+
+EXTRA.append(_faults)
+
+
 if __name__ == '__main__':
     errs = write_extracted()
     print(open(os.path.join(LEAN, 'Gemato', 'Extracted.lean')).read())
